@@ -549,7 +549,9 @@ def body_larger(ctx, kind, check='values'):
         ds['eta'] = (('nface',), numpy.arange(len(faces), dtype=float))
         from emsarray.conventions.ugrid import UGrid
         cv = UGrid(ds)
-        seam = [len(faces) - 2, len(faces) - 1, 0, 1]
+        # (the faces whose nodes are numbered from 65,536 on, across the place where the ring closes; one face of each
+        # of the two sectors before them is left out, so edges shared with unselected faces are there too)
+        seam = [f for f in range(2 * 32763, len(faces)) if f not in (2 * 32764 + 1, 2 * 32767)] + [0, 1]
         polys = cv.polygons
         target = shapely.unary_union([polys[f].representative_point().buffer(1e-6) for f in seam])
         with clipcommon.work_dir(ctx) as wd:
